@@ -361,3 +361,105 @@ func TestCacheConcurrent(t *testing.T) {
 		w.Write(Ev{"e": "fin"})
 	}
 }
+
+// ---- (C) parked interleavings: the clock hook doubles as a scheduler gate. A lookup is parked at its first reading of
+// the clock (after it has looked at the cache entry, before it decides), while the environment moves on and another
+// lookup refreshes the entry; then it is released. The recorded trace is judged by TLC like the concurrent rounds.
+func TestCacheParked(t *testing.T) {
+	out := os.Getenv("VH_OUT")
+	if out == "" {
+		t.Skip("VH_OUT not set")
+	}
+	w := newNDWriter(t, out)
+	defer w.Close()
+	var clock atomic.Int64
+	base := time.Unix(1_700_000_000, 0)
+	var parkNext atomic.Bool
+	parked := make(chan struct{}, 1)
+	release := make(chan struct{})
+	restore := ech.VerifSetClock(func() time.Time {
+		if parkNext.CompareAndSwap(true, false) {
+			now := base.Add(time.Duration(clock.Load()) * time.Second) // the instant the parked lookup read the clock
+			parked <- struct{}{}
+			<-release
+			return now
+		}
+		return base.Add(time.Duration(clock.Load()) * time.Second)
+	})
+	defer restore()
+	round := 0
+	// script: what happens while the second lookup is parked
+	for _, ttl := range []int{1, 2} {
+		for _, expire := range []bool{true, false} { // the entry has expired when the parked lookup looks at it / is still valid
+			for _, change := range []bool{true, false} {
+				for _, refresh := range []int{0, 1, 2} { // full lookups by the other goroutine while parked
+					for _, late := range []int{0, 1, 3} { // clock steps while parked, after the refreshes
+						var mu sync.Mutex
+						var evs []Ev
+						log := func(e Ev) { mu.Lock(); e["now"] = int(clock.Load()); evs = append(evs, e); mu.Unlock() }
+						tts := [][][]int{{{ttl}, {ttl}}}[0]
+						z := &cacheZone{typ: tHTTPS, gen: map[string]int{"n1": 0, "n2": 0}, ttls: map[string][][]int{"n1": tts, "n2": {{2}, {2}}}, up: true}
+						z.log = log
+						srv := newDoHServer(z.answer)
+						clock.Store(0)
+						res, _ := ech.NewResolver(srv.url())
+						w.Write(Ev{"e": "reset", "scen": Ev{"ttls": tts, "G": 2, "typ": z.typ}, "round": round})
+						round++
+						lookup := func(g int) {
+							log(Ev{"e": "start", "g": g, "k": "n1"})
+							ctx, cancel := context.WithTimeout(context.Background(), 10*time.Second)
+							rr, err := res.Resolve(ctx, "n1.example")
+							cancel()
+							if err != nil {
+								log(Ev{"e": "end", "g": g, "k": "n1", "kind": "err", "gen": -1})
+								return
+							}
+							log(Ev{"e": "end", "g": g, "k": "n1", "kind": "ok", "gen": genOf(rr, z.typ)})
+						}
+						lookup(1) // fills the cache
+						steps := ttl - 1
+						if expire {
+							steps = ttl + 1
+						}
+						for i := 0; i < steps; i++ {
+							clock.Add(1)
+							log(Ev{"e": "advance"})
+						}
+						parkNext.Store(true)
+						done := make(chan struct{})
+						go func() { defer close(done); lookup(2) }()
+						select {
+						case <-parked:
+						case <-time.After(watchdogLimit()):
+							t.Fatal("the second lookup never read the clock")
+						}
+						if change {
+							z.mu.Lock()
+							z.gen["n1"] = 1
+							z.mu.Unlock()
+							log(Ev{"e": "change", "k": "n1"})
+						}
+						for i := 0; i < refresh; i++ {
+							if i == 1 {
+								clock.Add(1)
+								log(Ev{"e": "advance"})
+							}
+							lookup(1)
+						}
+						for i := 0; i < late; i++ {
+							clock.Add(1)
+							log(Ev{"e": "advance"})
+						}
+						release <- struct{}{}
+						<-done
+						srv.Close()
+						for _, e := range evs {
+							w.Write(e)
+						}
+						w.Write(Ev{"e": "fin"})
+					}
+				}
+			}
+		}
+	}
+}
